@@ -37,8 +37,13 @@ func verifC05Files() {
 	}
 	name := base + "/chanfile.out"
 	dp := new(DataPublisher)
-	subDiv := int(vSymU16("subframeDivisions"))
-	subOff := int(vSymU16("subframeOffset"))
+	// geometry parameters are case-split (a symbolic x symbolic 64-bit product is hard to
+	// re-assemble from file bytes); frame numbers, times and samples stay symbolic
+	subDiv, subOff := 64, 5
+	if kind == 0 { // only LJH2.2 records depend on them
+		subDiv = []int{3, 64, 1}[vRange("subframeDivisions", 0, vParam("ndivisions", 2)-1)]
+		subOff = []int{5, 0}[vRange("subframeOffset", 0, vParam("noffsets", 1)-1)]
+	}
 	var P, B *mat.Dense
 	var pdat, bdat []float64
 	switch kind {
@@ -70,7 +75,11 @@ func verifC05Files() {
 			var recs []*DataRecord
 			for i := 0; i < n; i++ {
 				tag := ks + string(rune('a'+i))
-				rec := &DataRecord{data: make([]RawType, nsamp), presamples: npre, channelIndex: 5,
+				L := nsamp
+				if nsamp >= 2 && vRange("short"+tag, 0, 1) == 1 {
+					L = nsamp - 1 // a shorter (variable-length edge-multi) record
+				}
+				rec := &DataRecord{data: make([]RawType, L), presamples: npre, channelIndex: 5,
 					trigFrame: FrameIndex(vSymI64("frame" + tag)), trigTime: time.Unix(0, vSymI64("nanos"+tag))}
 				for j := range rec.data {
 					rec.data[j] = RawType(vSymU16("d" + tag + string(rune('a'+j))))
@@ -87,7 +96,12 @@ func verifC05Files() {
 			}
 			vCheck(dp.PublishData(recs) == nil, "PublishData succeeds")
 			if !dp.WritingPaused {
-				want = append(want, recs...)
+				for _, rec := range recs {
+					// LJH2.2 files have a fixed record length: other lengths are refused by the writer
+					if kind != 0 || len(rec.data) == nsamp {
+						want = append(want, rec)
+					}
+				}
 			}
 		case 2:
 			dp.Flush()
@@ -107,21 +121,30 @@ func verifC05Files() {
 	}
 	vCheck(vFsOpenCount() == 0, "closing the writer closes the file")
 	if len(want) == 0 {
-		vCheck(!vFsExists(name), "no file is created when no record was accepted")
+		if vFsExists(name) {
+			// only possible when a record was handed to the writer and refused by it (a short
+			// record offered to a fixed-length LJH2.2 file): header only, no partial record
+			h := string(vFsBytes(name))
+			vCheck(kind == 0 && len(h) > 15 && h[len(h)-15:] == "#End of Header\n", "a file without accepted records holds at most its header")
+		}
 		vWitness("c05files-none")
 		return
 	}
 	b := vFsBytes(name)
-	recsize := 0
-	switch kind {
-	case 0:
-		recsize = 16 + 2*nsamp
-	case 1:
-		recsize = 24 + 2*nsamp
-	default:
-		recsize = 36 + 4*nbases
+	sizeOf := func(rec *DataRecord) int {
+		switch kind {
+		case 0:
+			return 16 + 2*nsamp
+		case 1:
+			return 24 + 2*len(rec.data)
+		}
+		return 36 + 4*nbases
 	}
-	hl := len(b) - recsize*len(want)
+	total := 0
+	for _, rec := range want {
+		total += sizeOf(rec)
+	}
+	hl := len(b) - total
 	vCheck(hl > 0, "file length = header + sum of record sizes (no partial record)")
 	if hl <= 0 {
 		return
@@ -143,8 +166,9 @@ func verifC05Files() {
 			}
 		}
 	}
-	for k, rec := range want {
-		o := hl + k*recsize
+	o := hl
+	for _, rec := range want {
+		recsize := sizeOf(rec)
 		micros := rec.trigTime.UnixNano() / 1000
 		switch kind {
 		case 0:
@@ -154,15 +178,15 @@ func verifC05Files() {
 				vCheck(uint16(c05le(b, o+16+2*j, 2)) == uint16(rec.data[j]), "LJH2.2 record: exact samples")
 			}
 		case 1:
-			vCheck(int32(c05le(b, o, 4)) == int32(nsamp), "LJH3 record: length")
+			vCheck(int32(c05le(b, o, 4)) == int32(len(rec.data)), "LJH3 record: length")
 			vCheck(int32(c05le(b, o+4, 4)) == int32(npre+1), "LJH3 record: first rising sample = pre-trigger length + 1")
 			vCheck(int64(c05le(b, o+8, 8)) == int64(rec.trigFrame), "LJH3 record: frame count")
 			vCheck(int64(c05le(b, o+16, 8)) == micros, "LJH3 record: timestamp in microseconds")
-			for j := 0; j < nsamp; j++ {
+			for j := 0; j < len(rec.data); j++ {
 				vCheck(uint16(c05le(b, o+24+2*j, 2)) == uint16(rec.data[j]), "LJH3 record: exact samples")
 			}
 		default:
-			vCheck(int32(c05le(b, o, 4)) == int32(nsamp), "OFF record: record samples")
+			vCheck(int32(c05le(b, o, 4)) == int32(len(rec.data)), "OFF record: record samples")
 			vCheck(int32(c05le(b, o+4, 4)) == int32(npre), "OFF record: pre-trigger samples")
 			vCheck(int64(c05le(b, o+8, 8)) == int64(rec.trigFrame), "OFF record: frame count")
 			vCheck(int64(c05le(b, o+16, 8)) == rec.trigTime.UnixNano(), "OFF record: timestamp in nanoseconds")
@@ -173,9 +197,9 @@ func verifC05Files() {
 				vCheck(uint32(c05le(b, o+36+4*j, 4)) == math.Float32bits(float32(rec.modelCoefs[j])), "OFF record: projection coefficients as float32")
 			}
 		}
+		o += recsize
 	}
 	vObserve("nrec", int64(len(want)))
-	vObserve("hl", int64(hl))
 	vWitness("c05files-end")
 }
 
